@@ -223,6 +223,10 @@ fn calculate_d_core(amp_factor: &u64, deposits: &[Uint128], n_coins: Uint128) ->
 
     if sum_x == Uint128::zero() {
         Some(Uint512::zero())
+    } else if deposits.iter().any(|x| x.is_zero()) {
+        // the invariant is not defined for a balance set in which some, but not all, balances
+        // are zero; solving it without those assets over-estimates D
+        None
     } else {
         // do as below but for a generic number of assets
         let amount_times_coins: Vec<Uint128> = deposits
